@@ -43,6 +43,15 @@ func init() {
 				Run: func(c *Ctx, r *Rep, tier string) { getLA(c).ruleReleaseOnExit(r, "LOCK-3") }},
 			{Name: "LOCK-4", What: "the held→acquired graph over Reader.mu, Writer.m and the cache mutexes (dynamic Cache calls resolved to every implementation) is acyclic", Floor: 3,
 				Run: func(c *Ctx, r *Rep, tier string) { getLA(c).ruleLockOrder(r, "LOCK-4") }},
+			{Name: "KEY-BASE", What: "every cache table entry is made under the Base() of the block it holds; a node's block is set only when the node is created (added after a blind second seed round)", Floor: 4, Run: ruleKeyBase},
+			{Name: "CACHE-PUT-CAP", What: "Put inserts only with room left or after an eviction; with the table full an unused block is handed back (shared with C14)", Floor: 4,
+				Run: func(c *Ctx, r *Rep, tier string) {
+					rulePutCapacity(c, r, "CACHE-PUT-CAP", "CACHE-PUT-REFUSE", discoverCaches(c, hts_cacheCfg))
+				}},
+			{Name: "CACHE-PUT-REFUSE", What: "with the table full, an unused block is handed back as (b,false) without eviction or insertion", Floor: 3,
+				Run: func(c *Ctx, r *Rep, tier string) {}},
+			{Name: "EVICT-MATCH", What: "the block Put reports as evicted is the block whose entry it removed (shared with C14)", Floor: 4, Run: ruleEvictMatch},
+			{Name: "OWNER-ON-SUCCESS", What: "block.readFrom detaches the block before decoding into it and re-attaches it only when the decode succeeded (added after a blind second seed round)", Floor: 1, Run: ruleOwnerOnSuccess},
 		},
 		Explanation: "A block that is at the same time in a cache's table and in the reader's hands is recycled as the next decompression target while the table still maps its old base – exactly the wrong-data outcome the property forbids. OWN-1 (reader side, all hand-over sites, Reader.current tracked as one location, checked as an inductive invariant per function) and OWN-2 (cache side, all implementations) are the structural statement of \"never aliased\"; OWN-3 the cross-reader contamination test; LOCK-2 that the cache field is never read while SetCache writes it (including from the read-ahead goroutine); LOCK-1/3/4 that attaching a cache cannot make a call block for ever through lock misuse.",
 		NotDecided:  "hit/miss policy effects, equality of LastChunk values with an uncached run, that a retained block's data is still intact when it is handed back (follows from OWN-1/2 only).",
